@@ -121,9 +121,33 @@ def _gen_step(ci, dom, st8):
         roots = [i for i, h in enumerate(w.handles) if not h.path and h.attached]
         if not roots:
             return {"t": "new", "r": 0, "id": w.next_id()}
+        q = st8.setdefault("queue", [])
+        while q:
+            s = q.pop(0)
+            if s == "REWRITE":
+                s = draw_rewrite(draw, w, dom)
+                st8["loaded"] = set()
+                st8["before"] = copy.deepcopy(w.docs[0])
+                st8["meta"] = s["meta"]
+                return s
+            if w.usable(s["h"]):
+                st8["loaded"].add(w.handles[s["h"]].obj)
+                return copy.deepcopy(s)
         c = draw(st.integers(0, 19))
         if c == 0 and len(roots) < 2:
             return {"t": "new", "r": 0, "id": w.next_id()}
+        if c == 19 and 0 not in w.poisoned:
+            # A-rewrite-A: the SAME mutation is issued again after the outside writer changed the
+            # resource in between (root clear()/reset() included: they save without loading first)
+            hi = draw(st.sampled_from(roots)) if draw(st.booleans()) else gen.pick_handle(draw, w)
+            if hi is not None:
+                hk = w.handles[hi].kind
+                ms = W_METHODS[hk] + (["clear", "reset", "reset"] if not w.handles[hi].path else [])
+                x = gen.draw_mutator(draw, w, hi, dom, methods=ms, p_raise=0)
+                q.extend(["REWRITE", copy.deepcopy(x)])
+                st8["loaded"].add(w.handles[hi].obj)
+                st8["aba"] = st8.get("aba", 0) + 1
+                return x
         if c < 5:
             s = gen.draw_take(draw, w)
             if s is not None:
@@ -190,6 +214,7 @@ def run_shard(spec, seed, tier, active):
             cnt[f"pair.{t[0]}->{t[1]}"] = cnt.get(f"pair.{t[0]}->{t[1]}", 0) + 1
             cnt[f"style.{t[2]}"] = cnt.get(f"style.{t[2]}", 0) + 1
             cnt[f"rel.{t[5]}"] = cnt.get(f"rel.{t[5]}", 0) + 1
+        cnt["same_mutation_repeated_after_rewrite"] = st8.get("aba", 0)
         nt = st8["nt"]
         sample = {"class": ci.name, "initial": repr(init),
                   "steps": [{k: v for k, v in s.items() if k != "meta"} for s in w.log[:14]]} if nt else None
